@@ -103,6 +103,13 @@ Section ACC.
   (* `(this_val != img_fill) && !(__isnan(this_val))` *)
   Definition classify (fill v : T) : option T := if eqb OP v fill || isnan OP v then None else Some v.
 
+  (* DaskEWAResampler.compute: `if fill_value is None: fill_value = self._get_default_fill(data)` -- the value that marks
+     invalid input pixels and is written to empty cells; None (not falsiness) selects the default *)
+  Definition effective_fill (fill_value : option T) (dflt : T) : T :=
+    match fill_value with None => dflt | Some f => f end.
+  (* the grid value of a cell given what write_grid decided *)
+  Definition grid_value (fill : T) (o : option T) : T := match o with None => fill | Some v => v end.
+
   (* ewa.py:_mask_helper: the output cells that are masked again when masked arrays were given *)
   Definition mask_helper (data fill : T) : bool := if isnan OP fill then isnan OP data else eqb OP data fill.
 
